@@ -36,6 +36,11 @@ func c03Unexpected(x *c02G) (tag, streams string) {
 			"vgi_rpc.request_id", "vgi_rpc.method", "vgi_rpc.shm_offset", "vgi_rpc.shm_length", "vgi_rpc.shm_segment_size", "vgi_rpc.shm_segment_name",
 			"vgi_rpc.location", "vgi_rpc.location.sha256", "vgi_rpc.cancel", "vgi_rpc.stream_state#b64", "vgi_rpc.call_state#b64", "traceparent"})
 		val := Pick(r, c03Boundary)
+		if x.pvOn && r.Chance(50) {
+			key = "vgi_rpc.protocol_version"
+			val = Pick(r, []string{"9223372036854775807", "9223372036854775808", "18446744073709551615", "18446744073709551616",
+				"99999999999999999999", "10000000000000000000", "123456789012345678901", "9999999999999999999999999999999999999999"})
+		}
 		if key == "vgi_rpc.protocol_version" && r.Bool() {
 			val = Pick(r, []string{val + ".0.0", "1." + val + ".0", "1.2." + val, val + "." + val + "." + val})
 		}
@@ -144,7 +149,7 @@ func c03Gen(g *Gen) {
 				g.Case(x.wideSticky()...)
 			case k < 4:
 				g.Case(x.wideProofHistory()...)
-			case k < 6:
+			case k < 7:
 				g.Case(x.widePkceCookie())
 			default:
 				g.Case(x.wideLine())
